@@ -181,6 +181,12 @@ func toMap(in any, tag string) (map[string]any, error) {
 				if t[0] == "recorded" && val == uint64(0) {
 					continue
 				}
+				if t[0] == "internalId" && val == uint64(0) {
+					continue
+				}
+				if t[0] == "id" && val == "" {
+					continue
+				}
 			}
 			if t[0] == "refs" {
 				refs := val.(map[string]interface{})
